@@ -21,6 +21,19 @@ def _stores_to( stmt, name ):
 
 # ---------------------------------------------------------------------------------------- H-PARSE
 
+
+def ts_relation( e, ts_name ):
+    """the relation a test states between the record's timestamp and the last accepted one ( self._ts ), found by value: evaluated for no
+    position yet and for a timestamp before / at / after the position.  '>=' / '>' when it is exactly "no position yet, or ts >= / >
+    position"; None for anything else ( a test that also looks at something else does not fold and is None )"""
+    cells = []
+    for last, ts in (( None, 5 ), ( 5, 4 ), ( 5, 5 ), ( 5, 6 )):
+        v = try_fold( e, { 'self._ts': last, ts_name: ts }, default='?' )
+        if v == '?':
+            return None
+        cells.append( bool( v ))
+    return { ( True, False, True, True ): '>=', ( True, False, False, True ): '>' }.get( tuple( cells ))
+
 @rule( 'H-PARSE', props=( 'C18', ), floor=4 )
 def h_parse( ctx ):
     """parse_record: a skipped (blank / comment) line is never left in the line variable when the file ends; no record => StopIteration;
@@ -702,7 +715,7 @@ def h_load( ctx ):
         conj = []
         for g in guards:
             conj += g.test.values if isinstance( g.test, ast.BoolOp ) and isinstance( g.test.op, ast.And ) else [ g.test ]
-        has_ts = any( pmatch( c, 'self._ts is None or %s > self._ts' % TS ) for c in conj )
+        has_ts = any( ts_relation( c, TS ) == '>' for c in conj )
         if has_ts:
             res.ok( src, r.stmt, 'strict released only when ts > last accepted timestamp (strictly); "a record of this file was seen before" is decided by H-STRICT' )
         else:
@@ -755,7 +768,7 @@ def h_load( ctx ):
         if isinstance( e_, ast.Name ):
             ds_ = [ a_.value for a_ in ast.walk( lp ) if isinstance( a_, ast.Assign ) and any( isinstance( x_, ast.Name ) and x_.id == e_.id for x_ in a_.targets ) ]
             e_ = ds_[0] if len( ds_ ) == 1 else e_
-        if pmatch( e_, 'self._ts is None or %s >= self._ts' % TS ) is not None:
+        if ts_relation( e_, TS ) == '>=':
             outer.append( t_ )
     normal_ = ( 'next', 'true', 'false', 'back', 'break', 'continue', 'loop-exit' )		# a raising record ends the replay (FAILED): not a skipped record
     if outer and all( lh0 not in cfg.reachable( s0, avoid=outer, labels=normal_ ) for s0 in streaming ):
@@ -790,7 +803,7 @@ def h_load( ctx ):
                 via = defs_[0]; test = defs_[0].stmt.value
         stores_ts = [ nd for nd in cfg.nodes if nd.kind == 'stmt' and pmatch( nd.stmt, 'self._ts = %s' % TS ) is not None ]
         early = via is not None and any( via in cfg.reachable( st_, edge_ok=lambda a_, b_, l_: l_ not in ( 'back', )) and st_ is not via for st_ in stores_ts if cfg.dominates( st_, via ))
-        if pmatch( test, 'self._ts is None or %s >= self._ts' % TS ) and not early:
+        if ts_relation( test, TS ) == '>=' and not early:
             res.ok( src, eb, 'accepted iff ts >= last position (equal timestamps are all delivered; earlier ones are dropped)' )
         else:
             res.bad( src, eb, eb.test, 'a record is accepted iff its timestamp is not before the last accepted one (>=: records with equal timestamps must all be delivered)' )
